@@ -256,8 +256,19 @@ pub fn check_case(c: &Case, rec: &mut Recorder) -> Result<(), String> {
         rec.class("clean_panic_on_contract_violation");
     }
     if leaked > 0 {
-        if lying && kind == Kind::Panic && is_known_class("C17", "leak_when_overreporting_reader_panics") {
+        // K9: what stays behind is the token libyaml was building when the panic
+        // unwound through it - a string no longer than twice the input (its buffer
+        // doubles), far less than the parser's own fixed buffers (> 64 KiB), which
+        // must still be released
+        let k9_shape = leaked <= 2 * c.bytes.len() + 4096;
+        if lying && kind == Kind::Panic && k9_shape && is_known_class("C17", "leak_when_overreporting_reader_panics") {
             rec.known("leak_when_overreporting_reader_panics");
+            rec.class(match leaked {
+                0..=64 => "k9_leak:<=64B",
+                65..=1024 => "k9_leak:<=1KiB",
+                1025..=16384 => "k9_leak:<=16KiB",
+                _ => "k9_leak:>16KiB",
+            });
         } else {
             return Err(format!("{} bytes stay allocated after the call returned ({}): memory leaked", leaked, match kind { Kind::Ok => "Ok", Kind::Err => "Err", Kind::Panic => "panic" }));
         }
